@@ -301,6 +301,30 @@ CHECKS = {
               "exact in single precision; whether third-party VTK readers accept the files is not decided"),
         technique="TLA+ abstract file-system machine checked by TLC; behaviour replay with decoding of the written files",
         design="9/C20"),
+    "C01": dict(
+        text=("The adjoint identity Re sum(g v) = d/dv Re sum(w y) is decided per module family. (a) LinSolve / Inverse: "
+              "Solvers.tla proves the identity for dA = -lambda x', db = lambda and dA = -B'WB' in exact Gaussian-integer "
+              "arithmetic on every enumerated matrix, and the modules' sensitivities (dense/sparse, real/complex, one and two "
+              "right-hand sides) are compared with TLC's exact x, lambda and Inverse adjoint. (b) OverhangFilter: Overhang.tla "
+              "defines the exact Jacobian of the layer sweep at the rational parameter point by forward-mode differentiation "
+              "(all directions, nsampling 3/5/9, tie-free fields); the module's sensitivity for every unit seed and a random "
+              "seed must be J'w. (c) EigenSolve: Eigen.tla gives the exact directional derivatives of eigenvalues and "
+              "B-normalised eigenvectors along symmetric directions by first-order perturbation theory (checked against the "
+              "defining equations by TLC); dense standard/generalised and sparse EigenSolve with eigenvalue, eigenvector, "
+              "mixed and partial seeds are contracted with the directions and compared. (d) all (multi-)affine modules "
+              "(FilterConv with mixed padding modes and constant overrides, DensityFilter incl. nonpadding, AssembleGeneral / "
+              "Stiffness / Mass / Poisson with dense and dyadic seeds and boundary conditions, ElementOperation of every "
+              "operator shape, Strain, Stress, ElementAverage, NodalOperation, ThermoMechanical, EinSum incl. complex and "
+              "mixed, ConcatSignal with scalars, MakeComplex, RealPart, ImagPart): the directional derivative along every unit "
+              "direction (and imaginary unit direction) is the exact difference of the real module, whose forward map is bound "
+              "to the specifications by C08/C09/C12; full, single-output and unit seeds. (e) [O] SystemOfEquations, "
+              "StaticCondensation (symmetric, complex symmetric, non-symmetric), LinSolve of every class incl. CG, ComplexNorm, "
+              "PNorm(p=2), Scaling: Richardson-extrapolated central differences along class-preserving directions."),
+        note=(TLC_BASE + "; not decided by the specification: EigenSolve for complex / non-symmetric matrices, KSFunction, "
+              "SoftMinMax, PNorm for general p, OverhangFilter at general parameters, MathGeneral (sympy absent), AutoMod (jax "
+              "absent); C04 still exercises their linearity and accumulation"),
+        technique="TLA+ exact adjoint identities / Jacobians / perturbation derivatives checked by TLC and compared with the modules; exact-difference adjoint identity for affine modules",
+        design="9/C01"),
 }
 
 
